@@ -109,8 +109,11 @@ def parseDT (s : String) : DT :=
     | none => { lib := l, code := 100000 }
   | _ => { lib := 0, code := 100000 }
 
-/-- class name -> row of the generated table -/
-def parseCls (s : String) : Nat := (findIdx (· == s) Gen.classNames 0).getD 100000
+/-- class name → row of the generated table; a trailing `!` (annotation constructed with `optional=True`) does not change the class:
+    the constructor flag is overridden by the hint (`from_hint`) wherever a hint is resolved -/
+def parseCls (s0 : String) : Nat :=
+  let s := if s0.endsWith "!" then (s0.dropEnd 1).toString else s0
+  (findIdx (· == s) Gen.classNames 0).getD 100000
 
 def parseValue (s : String) : Value :=
   if s == "N" then .none else
@@ -365,6 +368,29 @@ def symTokens (s : String) : List String :=
       else go rest (cur.push c) acc
   go s.toList "" []
 
+/-- `SYMSHAPE`: entries separated by `;` : a term, `...`, `anon(name)`, `const(name,n)` -/
+def parseAxis (s : String) : Option Axis :=
+  if s == "..." then some .ellipsis
+  else if s.startsWith "anon(" then some (.anon ((s.drop 5).dropEnd 1).toString.toList)
+  else if s.startsWith "const(" then
+    match (((s.drop 6).dropEnd 1).toString).splitOn "," with
+    | [k, n] => n.toInt?.map (fun i => Axis.const k.toList i)
+    | _ => none
+  else match parseSym (symTokens s) with
+    | some (t, []) => some (.expr t)
+    | _ => none
+
+def opSymShape (axes : String) : String :=
+  match (axes.splitOn ";").mapM parseAxis with
+  | none => "bad-op"
+  | some as =>
+    match printShape as with
+    | .error .zeroDivision => "printerr ZeroDivisionError"
+    | .error .valueError => "printerr ValueError"
+    | .error .typeError => "printerr TypeError"
+    | .error .unmodelled => "unmodelled"
+    | .ok s => "str=" ++ String.ofList s ++ " => " ++ opShape (String.ofList s)
+
 def opSym (tree scope : String) : String :=
   match parseSym (symTokens tree) with
   | some (t, []) =>
@@ -601,6 +627,7 @@ def handle (line : String) : String :=
   | "HIST" :: steps => opHist steps
   | "PYD" :: config :: steps => opPyd config steps
   | ["SYM", tree, scope] => opSym tree scope
+  | ["SYMSHAPE", axes] => opSymShape axes
   | _ => "bad-op"
 
 partial def mainLoop (h : IO.FS.Stream) (out : IO.FS.Stream) : IO Unit := do
